@@ -170,3 +170,21 @@ func Harness_C19_JSONPatchNegativeIndex() {
 	}
 	c19Apply([]interface{}{op})
 }
+
+// Harness_C19_JSONPatchEmptyTokens: move/copy with pointers that contain empty reference tokens ("/o/a/" is the
+// member with the empty name inside /o/a, not /o/a itself): copying a value below itself through such a pointer must
+// be refused or answered with an error.
+func Harness_C19_JSONPatchEmptyTokens() {
+	doc := c11Doc()
+	doc["o"] = map[string]interface{}{"a": map[string]interface{}{"k": "v", "": map[string]interface{}{"k": "w"}}, "": map[string]interface{}{"k": "x"}}
+	from := []string{"/o/a", "/o", "/o/a/", "/o/"}[verifrt.Choose("from", 4)]
+	path := []string{"/o/a/", "/o/a//", "/o//a", "/o/a//y", "/o/", "/o//", "/o/a/k/"}[verifrt.Choose("path", 7)]
+	kind := []string{"copy", "move"}[verifrt.Choose("kind", 2)]
+	p := patch.Patch{patch.ActionKey: patch.JSONPatch, patch.PatchesKey: []interface{}{map[string]interface{}{"op": kind, "from": from, "path": path}}}
+	if patchvalidator.Validate(p) != nil {
+		verifrt.Reach("refused-by-validation")
+		return
+	}
+	_, _ = New().ApplyPatches(doc, []patch.Patch{p})
+	verifrt.Reach("answered")
+}
